@@ -978,12 +978,14 @@ class Knowledge:
             self.bounds = {}  # term -> (lo, hi)
             self.ineqs = []  # linear terms L with L <= 0 known
             self.implied = []  # (guard atom, fact atom): guard => fact
+            self.ors = []  # disjunctions not yet resolved
         else:
             self.atoms = list(other.atoms)
             self.known = set(other.known)
             self.bounds = dict(other.bounds)
             self.ineqs = list(other.ineqs)
             self.implied = list(other.implied)
+            self.ors = list(other.ors)
         self._isets = None
 
     def copy(self):
@@ -1000,7 +1002,26 @@ class Knowledge:
             self.atoms.append(atom)
         self._derive(atom)
         self._fire_implied()
+        self._revisit_ors()
         return True
+
+    def _revisit_ors(self):
+        if not self.ors:
+            return
+        for _ in range(4):
+            progress = False
+            rest = []
+            for atom in self.ors:
+                live = [a for a in atom.args if self.decide(a) is not False]
+                if len(live) == 1:
+                    if live[0] not in self.known:
+                        self._derive(live[0])
+                        progress = True
+                elif len(live) > 1:
+                    rest.append(atom)
+            self.ors = rest
+            if not progress:
+                break
 
     def _fire_implied(self):
         if not self.implied:
@@ -1041,6 +1062,18 @@ class Knowledge:
             live = [a for a in atom.args if self.decide(a) is not False]
             if len(live) == 1:
                 self._derive(live[0])
+            elif live:
+                if atom not in self.ors:
+                    self.ors.append(atom)
+                # facts common to every live disjunct hold
+                def conj(x):
+                    return set(x.args) if isinstance(x, Sym) and \
+                        x.op == 'and' else {x}
+                common = conj(live[0])
+                for a in live[1:]:
+                    common &= conj(a)
+                for c in common:
+                    self._derive(c)
             return
         if op == 'ok':
             self._derive_ok(atom)
